@@ -379,6 +379,8 @@ Arguments options : clear implicits.
 Arguments trained : clear implicits.
 Arguments loaded : clear implicits.
 Arguments grammar : clear implicits.
+Arguments s_files {A R}.
+Arguments s_lists {A R}.
 
 (* ------------------------------------------------------------------ *)
 (* the disk stage                                                      *)
